@@ -78,14 +78,12 @@ func (pm *PeerManager) Disconnected(p peer.ID) {
 	}
 
 	delete(pm.peerProcesses, p)
-	pm.peerProcessesLk.Unlock()
-
-	if verifhook.Enabled {
-		verifhook.Yield("peermanager.beforeShutdown", string(p), pm)
-	}
+	// tell the process to shut down before the table is released, so that a
+	// successor cannot be created while this one still counts as running
 	if pprocess, ok := pq.process.(PeerProcess); ok {
 		pprocess.Shutdown()
 	}
+	pm.peerProcessesLk.Unlock()
 }
 
 // GetProcess returns the process for the given peer
